@@ -44,9 +44,9 @@ TEXTS = {
     "C06": {
         "text": "Lean theorems: whitespace reduction to counters, layout-invariance of TokenSpacing for all kind sequences "
                 "(spacing_layout_invariant: amount of blanks; spacing_space_or_break: a space and a line break with any indentation "
-                "are the same gap - true since repair b68b46e), blank-line clamp; translator obligation layout_is_read_only_at_known_sites (every read of a token's original whitespace, line-break count or the newline string in the parser and in every rule, regenerated from the Rust source on every run); C06_format_full_checked / C06_format_full_partial: for the closed model of the whole formatter (formatFull: scanner, parser control flow, consolidators, rules, wrapper stage with the search inside, reconstructor) two layouts of the same tokens are formatted to the same bytes whenever the decidable premise layoutPremisesB holds for the pair: same token types and texts, same blank-line grouping, identical bytes before verbatim tokens, GapEqW (a gap's emptiness matters only between a literal/unknown token and a token that can keep its spacing, and before the end-of-file token), same line-break flags after the first asm keyword, no line comment sharing its line with code, and every token written by a first-phase solution of the wrapper in the first run (fails exactly where the wrapper finds no solution: F34). No contract on parser or wrapper: the parser model reads line breaks only behind an asm keyword (parse_layout_independent, by construction of parseFileMasked), the search model reads tokens only through FTok.sview (kind, last-line length) and the configuration through Config.searchCfg (search_reads_views_only), and a relational proof carries two related token states through the whole wrapper stage (Proofs/LayoutStage, LayoutFull). The premise is evaluated by the driver on every pair of the relayout stream (full2: info_c06; holds on about 64 % of the random pairs, the rest is mostly the inline-comment restriction), next to the byte comparison of both model outputs with the real formatter and the relayout oracle on the real code.",
+                "are the same gap - true since repair b68b46e), blank-line clamp; translator obligation layout_is_read_only_at_known_sites (every read of a token's original whitespace, line-break count or the newline string in the parser and in every rule, regenerated from the Rust source on every run); C06_format_full_checked / C06_format_full: for the closed model of the whole formatter (formatFull: scanner, parser control flow, consolidators, rules, wrapper stage with the search inside, reconstructor) two layouts of the same tokens are formatted to the same bytes whenever the decidable premise layoutPremisesB holds for the pair: same token types and texts, same blank-line grouping, identical bytes before verbatim tokens, GapEqW (a gap's emptiness matters only between a literal/unknown token and a token that can keep its spacing, and before the end-of-file token), same line-break flags after the first asm keyword, every token written by a first-phase solution of the wrapper in the first run (fails exactly where the wrapper finds no solution: F34), and every token behind a trailing line comment that could keep the input's spaces starts a line in the result (TokenSpacing gives such a token no spacing; the model's token_lengths masks it, which the wsearch/full correspondences validate). No contract on parser or wrapper: the parser model reads line breaks only behind an asm keyword (parse_layout_independent, by construction of parseFileMasked), the search model reads tokens only through FTok.sview (kind, last-line length) and the configuration through Config.searchCfg (search_reads_views_only), and a relational proof carries two related token states through the whole wrapper stage (Proofs/LayoutStage, LayoutFull). The premise is evaluated by the driver on every pair of the relayout stream (full2: info_c06; holds on about 98 % of the random pairs; the rest are pairs in which a gap between a literal and an identifier-like token is empty in one layout only), next to the byte comparison of both model outputs with the real formatter and the relayout oracle on the real code.",
         "design_ref": "DESIGN.md section 5 (C06), 12.8",
-        "note": "Partial: pairs with a line comment that shares its line with code, and lines without a wrapping solution (F34), are decided by the relayout oracle and the full2 correspondence only. The model is tied to the code by differential execution (full, full2, pfull, wsearch streams).",
+        "note": "Lines without a wrapping solution (F34, where the property is false) and the 2 % of pairs outside the premise are decided by the relayout oracle and the full2 correspondence only. The model is tied to the code by differential execution (full, full2, pfull, wsearch streams).",
         "technique": "Lean 4 proof over the closed executable model (relational, unbounded) + per-pair premise evaluation + differential correspondence + metamorphic relayout oracle",
     },
     "C11": {
